@@ -256,6 +256,35 @@ def pool_file(lang: str, k: int) -> str:
     return TEMPLATES[lang].format(k=k, w=SIB_WORDS.get(k, f"dnr{k}"))
 
 
+# Twins whose shared block stands at the very top of the file, in plain statements without any bracket: whatever an analyzer
+# carries over from the file processed before them (an unterminated import list, string, comment ...) hits these lines first.
+TOP_BLOCK = {
+    "py": "total_top = 0\ncounter_top = total_top + 17\nlimit_top = counter_top * 3\noffset_top = limit_top - 5\nwindow_top = offset_top + counter_top\n"
+          "spread_top = window_top - limit_top\n",
+    "ts": "let totalTop = 0;\nlet counterTop = totalTop + 17;\nlet limitTop = counterTop * 3;\nlet offsetTop = limitTop - 5;\nlet windowTop = offsetTop + counterTop;\n"
+          "let spreadTop = windowTop - limitTop;\n",
+    "rs": "const TOTAL_TOP: i64 = 0;\nconst COUNTER_TOP: i64 = TOTAL_TOP + 17;\nconst LIMIT_TOP: i64 = COUNTER_TOP * 3;\nconst OFFSET_TOP: i64 = LIMIT_TOP - 5;\n"
+          "const WINDOW_TOP: i64 = OFFSET_TOP + COUNTER_TOP;\nconst SPREAD_TOP: i64 = WINDOW_TOP - LIMIT_TOP;\n",
+}
+STRINGLY_PY = (
+    "\n\ndef check_state_{w}(state_{w}):\n"
+    "    if state_{w} in (\"open\", \"closed\", \"held\"):\n"
+    "        return state_{w} == \"open\"\n"
+    "    return False\n"
+)
+
+
+def top_twins() -> list[tuple[str, str]]:
+    out = []
+    for lang in ("py", "ts"):      # duplicate-code has no Rust analyzer
+        for w in ("a", "b"):
+            tail = {"py": f"print(spread_top, '{w}')\n" + STRINGLY_PY.format(w=w),
+                    "ts": f"console.log(spreadTop, '{w}');\n",
+                    "rs": f"pub fn shown_{w}() -> i64 {{ SPREAD_TOP }}\n"}[lang]
+            out.append((f"top_{w}{EXT[lang]}", TOP_BLOCK[lang] + tail))
+    return out
+
+
 def siblings() -> list[tuple[str, str]]:
     """the healthy files of every run: (name, text).  Indices 1..; donors use indices >= 50."""
     out = []
@@ -264,7 +293,7 @@ def siblings() -> list[tuple[str, str]]:
             out.append((f"sib{k}{EXT[lang]}", pool_file(lang, k)))
     out.append(("twin_a.py", '"""\nPurpose: twin a\n"""\n' + TWIN_BLOCK_PY + "\n\ndef only_a(x):\n    return x\n"))
     out.append(("twin_b.py", '"""\nPurpose: twin b\n"""\n' + TWIN_BLOCK_PY + "\n\ndef only_b(y):\n    return y\n"))
-    return out
+    return out + top_twins()
 
 
 def donor(lang: str, k: int) -> str:
